@@ -275,7 +275,7 @@ def make_corpus(ctx: Ctx) -> dict:
     return {"root": root, "files": files, "stdlib": mods, "generated": gens}
 
 
-def run_build(ctx: Ctx, corp: dict, cache_dir: str, ff: bool):
+def run_build(ctx: Ctx, corp: dict, cache_dir: str, ff: bool, pyver: tuple[int, int] | None = None):
     from mypy import build as mbuild
     from mypy.fscache import FileSystemCache
     from mypy.modulefinder import BuildSource
@@ -288,6 +288,8 @@ def run_build(ctx: Ctx, corp: dict, cache_dir: str, ff: bool):
     o.show_traceback = True
     o.mypy_path = [corp["root"]]
     o.namespace_packages = True
+    if pyver or corp.get("pyver"):
+        o.python_version = pyver or corp["pyver"]
     srcs = [BuildSource(os.path.join(corp["root"], m + ".py"), m, None) for m in corp["files"]]
     msgs: list[str] = []
     try:
@@ -454,14 +456,14 @@ def determinism_search(ctx: Ctx, trees: dict, ff: bool) -> None:
     ctx.coverage.setdefault("determinism", {})["binary" if ff else "json"] = {"modules": len(trees), "differing": nbad}
 
 
-def structural_roundtrip(ctx: Ctx, corp: dict) -> dict:
+def structural_roundtrip(ctx: Ctx, corp: dict, tag: str = "") -> dict:
     from harness.c11 import dump
     loaded: dict[str, dict] = {}
     differing: dict[str, set] = {}
     fresh_by_fmt: dict[str, dict] = {}
     info: dict = {}
     for fmt, ff in (("binary", True), ("json", False)):
-        cache = os.path.join(ctx.tmp, "cache_" + fmt)
+        cache = os.path.join(ctx.tmp, "cache_" + fmt + tag)
         # restore the file the previous format's warm run edited
         with open(os.path.join(corp["root"], "c11_td_main.py"), "w") as f:
             f.write(corp["files"]["c11_td_main"])
@@ -526,7 +528,7 @@ def structural_roundtrip(ctx: Ctx, corp: dict) -> dict:
         compare_tables(ctx, "binary-vs-json", "json-reloaded vs binary-reloaded",
                        {k: loaded["json"][k] for k in common}, {k: loaded["binary"][k] for k in common}, limit,
                        skip=differing.get("binary", set()) | differing.get("json", set()))
-    ctx.coverage["roundtrip"] = info
+    ctx.coverage["roundtrip" + tag] = info
     return {"loaded": loaded, "fresh": fresh_by_fmt}
 
 
@@ -950,6 +952,14 @@ def main(ctx: Ctx) -> None:
         structural_roundtrip(ctx, corp)
         k2_schemas(ctx, os.path.join(ctx.tmp, "cache_binary"), corp)
         k3_extract_symbol(ctx, getattr(ctx, "node_bytes", []))
+        if not ctx.quick():
+            # the version-gated parts of typeshed: the same round trip for another target version
+            from harness.c11 import corpus as _corpus
+            corp2 = dict(corp, pyver=(3, 14))
+            corp2["files"] = dict(corp["files"], c11_all="".join(f"import {m}\n" for m in _corpus.all_stdlib(REPO, (3, 14))))
+            with open(os.path.join(corp["root"], "c11_all.py"), "w") as f:
+                f.write(corp2["files"]["c11_all"])
+            structural_roundtrip(ctx, corp2, tag="_py314")
     except ToolFailure as e:
         if not ctx.violations:
             raise
